@@ -778,7 +778,7 @@ def trunc_to_int64(x):
 
 
 class Evaluator:
-    MAX_STEPS = 2000000
+    MAX_STEPS = 300000
 
     def __init__(self, prog):
         self.prog = prog
@@ -1004,6 +1004,8 @@ class Evaluator:
                 raise ModelDomain("NaN comparison")
             return {"kleiner": a < b, "groesser": a > b, "kleinergleich": a <= b, "groessergleich": a >= b}[op]
         if op == "verkettet":
+            if (isinstance(a, (str, list)) and len(a) > 4000) or (isinstance(b, (str, list)) and len(b) > 4000):
+                raise ModelDomain("value size budget exceeded")   # keeps generated programs (and this model) small
             if e.ty == T:
                 if (ta == C and a.cp == 0) or (tb == C and b.cp == 0):
                     raise ModelDomain("U+0000 cannot be stored in a Text")
@@ -1126,7 +1128,7 @@ class Evaluator:
             if s.repeat is not None:
                 n = self.eval(s.repeat[0], env)
                 v = self.eval(s.repeat[1], env)
-                if n < 0 or n > 100000:
+                if n < 0 or n > 2000:
                     raise ModelDomain("list repeat count")
                 val = [deep(v) for _ in range(n)]
             else:
